@@ -652,4 +652,192 @@ theorem entropy_Submod (t : Tab (List σ) ℝ) (hnn : ∀ r ∈ t, 0 ≤ r.2) :
 
 end Bridge
 
+/-! ### Gibbs' inequality; the Rényi / Tsallis family -/
+
+section Gibbs
+variable {ι : Type}
+
+/-- Gibbs' inequality in nats, with `Σq ≤ Σp` allowed. -/
+theorem gibbs_log (s : Finset ι) (p q : ι → ℝ) (hp : ∀ i ∈ s, 0 ≤ p i) (hq : ∀ i ∈ s, 0 ≤ q i)
+    (hac : ∀ i ∈ s, q i = 0 → p i = 0) :
+    ∑ i ∈ s, p i - ∑ i ∈ s, q i ≤ ∑ i ∈ s, p i * Real.log (p i / q i) := by
+  rw [← Finset.sum_sub_distrib]
+  apply Finset.sum_le_sum
+  intro i hi
+  rcases (hp i hi).eq_or_lt with h0 | hpos
+  · rw [← h0]; simpa using hq i hi
+  · have hqpos : 0 < q i := by
+      rcases (hq i hi).eq_or_lt with h | h
+      · exact absurd (hac i hi h.symm) hpos.ne'
+      · exact h
+    have := Real.log_le_sub_one_of_pos (x := q i / p i) (by positivity)
+    rw [Real.log_div hqpos.ne' hpos.ne'] at this
+    rw [Real.log_div hpos.ne' hqpos.ne']
+    have h2 := mul_le_mul_of_nonneg_left this hpos.le
+    have e : p i * (q i / p i - 1) = q i - p i := by field_simp
+    rw [e] at h2
+    linarith
+
+theorem gibbs (s : Finset ι) (p q : ι → ℝ) (hp : ∀ i ∈ s, 0 ≤ p i) (hq : ∀ i ∈ s, 0 ≤ q i)
+    (hsum : ∑ i ∈ s, q i ≤ ∑ i ∈ s, p i) (hac : ∀ i ∈ s, q i = 0 → p i = 0) :
+    0 ≤ ∑ i ∈ s, p i * Real.logb 2 (p i / q i) := by
+  have h := gibbs_log s p q hp hq hac
+  have hl : 0 < Real.log 2 := Real.log_pos (by norm_num)
+  have : ∑ i ∈ s, p i * Real.logb 2 (p i / q i)
+      = (∑ i ∈ s, p i * Real.log (p i / q i)) / Real.log 2 := by
+    rw [Finset.sum_div]
+    apply Finset.sum_congr rfl
+    intro i _
+    rw [← Real.log_div_log, mul_div_assoc]
+  rw [this]
+  apply div_nonneg _ hl.le
+  linarith
+end Gibbs
+
+section Renyi
+
+/-- The real instance of the transcendental operations used by the entropy family. -/
+noncomputable def realOps : RealOps ℝ :=
+  ⟨Real.logb 2, fun x a => x ^ a, fun n => (n : ℝ), Real.logb 2 (Real.exp 1)⟩
+
+theorem filter_ne_zero (ps : List ℝ) :
+    ps.filter (fun p => !(p == 0)) = ps.filter (fun p => decide (p ≠ 0)) := by
+  apply List.filter_congr
+  intro p _
+  by_cases h : p = 0 <;> simp [h]
+
+theorem foldl_max_spec (ps : List ℝ) (m0 : ℝ) :
+    let r := ps.foldl (fun m p => if m < p then p else m) m0
+    m0 ≤ r ∧ (∀ p ∈ ps, p ≤ r) ∧ (r = m0 ∨ r ∈ ps) := by
+  induction ps generalizing m0 with
+  | nil => simp
+  | cons p ps ih =>
+    simp only [List.foldl_cons]
+    obtain ⟨h1, h2, h3⟩ := ih (if m0 < p then p else m0)
+    by_cases hlt : m0 < p
+    · simp only [hlt, if_true] at h1 h2 h3 ⊢
+      refine ⟨hlt.le.trans h1, ?_, ?_⟩
+      · intro x hx
+        rcases List.mem_cons.mp hx with rfl | hx
+        · exact h1
+        · exact h2 x hx
+      · rcases h3 with h3 | h3
+        · right; rw [h3]; exact List.mem_cons_self
+        · right; exact List.mem_cons_of_mem _ h3
+    · simp only [hlt, if_false] at h1 h2 h3 ⊢
+      refine ⟨h1, ?_, ?_⟩
+      · intro x hx
+        rcases List.mem_cons.mp hx with rfl | hx
+        · exact (not_lt.mp hlt).trans h1
+        · exact h2 x hx
+      · rcases h3 with h3 | h3
+        · left; exact h3
+        · right; exact List.mem_cons_of_mem _ h3
+
+/-- `lmax` of a non-empty list of non-negative reals is its greatest element. -/
+theorem lmax_spec (ps : List ℝ) (hne : ps ≠ []) (hnn : ∀ p ∈ ps, 0 ≤ p) :
+    lmax ps ∈ ps ∧ ∀ p ∈ ps, p ≤ lmax ps := by
+  obtain ⟨_, h2, h3⟩ := foldl_max_spec ps 0
+  refine ⟨?_, h2⟩
+  rcases h3 with h3 | h3
+  · obtain ⟨x, hx⟩ := List.exists_mem_of_ne_nil ps hne
+    have hx0 : x = 0 := le_antisymm (by have := h2 x hx; rw [h3] at this; exact this) (hnn x hx)
+    change lmax ps = 0 at h3
+    rw [h3, ← hx0]; exact hx
+  · exact h3
+
+theorem renyi_inf (ps : List ℝ) :
+    renyiVals realOps .inf ps = -Real.logb 2 (lmax ps) := rfl
+
+theorem renyi_zero (ps : List ℝ) :
+    renyiVals realOps (.fin 0) ps = Real.logb 2 (supportSize ps) := by
+  simp [renyiVals, realOps]
+
+theorem renyi_one (ps : List ℝ) :
+    renyiVals realOps (.fin 1) ps = entropyVals (Real.logb 2) ps := by
+  simp [renyiVals, realOps]
+
+theorem renyi_fin (a : ℝ) (h0 : a ≠ 0) (h1 : a ≠ 1) (ps : List ℝ) :
+    renyiVals realOps (.fin a) ps
+      = (1 / (1 - a)) * Real.logb 2 (((ps.filter (fun p => decide (p ≠ 0))).map (· ^ a)).sum) := by
+  simp only [renyiVals, realOps, beq_iff_eq, h0, h1, if_false, lsum_eq_sum, filter_ne_zero]
+
+theorem sum_rpow_filter (a : ℝ) (ha : 0 < a) (ps : List ℝ) :
+    ((ps.filter (fun p => decide (p ≠ 0))).map (· ^ a)).sum = (ps.map (· ^ a)).sum := by
+  apply sum_map_filter_of_zero
+  intro x _ hx
+  have : x = 0 := by simpa using hx
+  rw [this, Real.zero_rpow ha.ne']
+
+theorem renyi_fin_pos (a : ℝ) (h0 : 0 < a) (h1 : a ≠ 1) (ps : List ℝ) :
+    renyiVals realOps (.fin a) ps = (1 / (1 - a)) * Real.logb 2 ((ps.map (· ^ a)).sum) := by
+  rw [renyi_fin a h0.ne' h1, sum_rpow_filter a h0]
+
+theorem tsallis_fin (q : ℝ) (h1 : q ≠ 1) (ps : List ℝ) :
+    tsallisVals realOps q ps
+      = (1 / (q - 1)) * (1 - ((ps.filter (fun p => decide (p ≠ 0))).map (· ^ q)).sum) := by
+  simp only [tsallisVals, realOps, beq_iff_eq, h1, if_false, lsum_eq_sum, filter_ne_zero]
+
+theorem tsallis_fin_pos (q : ℝ) (h0 : 0 < q) (h1 : q ≠ 1) (ps : List ℝ) :
+    tsallisVals realOps q ps = (1 / (q - 1)) * (1 - (ps.map (· ^ q)).sum) := by
+  rw [tsallis_fin q h1, sum_rpow_filter q h0]
+
+/-- Tsallis entropy of order 1 is the Shannon entropy in nats. -/
+theorem tsallis_one (ps : List ℝ) :
+    tsallisVals realOps 1 ps = -(ps.map (fun p => p * Real.log p)).sum := by
+  have hl : Real.log 2 ≠ 0 := (Real.log_pos (by norm_num)).ne'
+  simp only [tsallisVals, realOps, beq_self_eq_true, if_true]
+  rw [entropyVals_eq_log, ← Real.log_div_log, Real.log_exp]
+  field_simp
+
+theorem tsallis_one_bits (ps : List ℝ) :
+    tsallisVals realOps 1 ps = entropyVals (Real.logb 2) ps / Real.logb 2 (Real.exp 1) := by
+  simp [tsallisVals, realOps]
+
+theorem extropy_eq (ps : List ℝ) :
+    extropyVals (Real.logb 2) ps = -(ps.map (fun p => (1 - p) * Real.logb 2 (1 - p))).sum := by
+  unfold extropyVals
+  rw [entropyVals_eq_sum, List.map_map]; rfl
+
+theorem perplexity_eq (ps : List ℝ) :
+    perplexityVals realOps 2 ps = (2 : ℝ) ^ entropyVals (Real.logb 2) ps := rfl
+
+end Renyi
+
+/-! ### The entropy of a marginal depends only on the set of variables -/
+
+section Congr
+variable {σ : Type} [DecidableEq σ]
+
+theorem entropyOf_congr (t : Tab (List σ) ℝ) {X X' : List Nat} (h : ∀ v, v ∈ X ↔ v ∈ X') :
+    entropyOf (Real.logb 2) t X = entropyOf (Real.logb 2) t X' := by
+  rw [entropyOf_fin, entropyOf_fin]
+  congr 1
+  apply Finset.sum_congr rfl
+  intro i _
+  congr 2
+  unfold rowMass
+  apply Finset.sum_congr rfl
+  intro j _
+  have : project X t[j.1].1 = project X t[i.1].1 ↔ project X' t[j.1].1 = project X' t[i.1].1 := by
+    rw [project_eq_iff, project_eq_iff]
+    exact ⟨fun hh v hv => hh v ((h v).mpr hv), fun hh v hv => hh v ((h v).mp hv)⟩
+  simp only [this]
+
+theorem entropyOf_vnorm (t : Tab (List σ) ℝ) (X : List Nat) :
+    entropyOf (Real.logb 2) t X = entropyOf (Real.logb 2) t (vnorm X) :=
+  entropyOf_congr t (fun v => (mem_vnorm X v).symm)
+
+/-- The entropy of the empty set of variables vanishes for a table of total mass 1. -/
+theorem entropyOf_nil (t : Tab (List σ) ℝ) (h : (t.map (·.2)).sum = 1) :
+    entropyOf (Real.logb 2) t [] = 0 := by
+  rw [entropyOf_rows]
+  have : ∀ r : List σ × ℝ, fibreSum (project []) t (project [] r.1) = 1 := by
+    intro r
+    rw [fibreSum_eq_ite, ← h]
+    congr 1
+  simp [this]
+
+end Congr
+
 end Dit.Lemmas.InfoReal
